@@ -151,27 +151,26 @@ func (g *sessGen) value() string {
 		}
 		return "#" + d
 	case x < 78:
+		// any number of entries (written in the order of their printed keys since repo_fixes/C19-8), values of every kind
+		// (repo_fixes/C19-6). The entries are put in in the harness's canonical order of keys (the order of their Gallina
+		// terms), which is the order the observed forms are compared in.
 		g.hist("value:hash-table")
-		n := g.r.Intn(2)
-		if g.wild && g.r.Chance(30) {
-			n = 2 + g.r.Intn(3)
+		n := g.r.Intn(4)
+		keys := []string{"1", "2", "\"sk\"", ":kk", "'ka", "'kb"} // sorted by gObj: (Fix (1)) (Fix (2)) (Str "sk") (Sym ":kk") (Sym "ka") (Sym "kb")
+		used := map[int]bool{}
+		for i := 0; i < n; i++ {
+			used[g.r.Intn(len(keys))] = true
 		}
 		s := "(let ((table (make-hash-table)))"
-		used := map[string]bool{}
-		for i := 0; i < n; i++ {
-			k := common.Pick(g.r, []string{"'ka", "'kb", "1", "2", "\"sk\"", ":kk"})
-			if used[k] {
+		for i, k := range keys {
+			if !used[i] {
 				continue
 			}
-			used[k] = true
-			v := common.Pick(g.r, []string{"1", "\"v\"", "2.5", ":x", "t", "#(1 2)"})
-			if g.wild && g.r.Chance(30) {
-				v = common.Pick(g.r, []string{"'(1 2)", "'sym"})
-			}
+			v := common.Pick(g.r, []string{"1", "\"v\"", "2.5", ":x", "t", "#(1 2)", "'(1 2)", "'sym", "'(a (b \"c\") . d)"})
 			s += fmt.Sprintf(" (setf (gethash %s table) %s)", k, v)
 		}
 		if len(used) > 1 {
-			g.wildText = true // Go's map order decides the order of the entries in the snapshot text
+			g.hist("value:hash-table-several-entries")
 		}
 		return s + " table)"
 	case x < 84:
